@@ -799,12 +799,28 @@ impl Parser {
             if lexem == Lexem::CurlyOpen {
                 curly_mode = true;
             }
+        } else {
+            // the function name is the last word of the query
+            return Ok(function_expr);
         }
 
-        if let Ok(Some(function_arg)) = self.parse_expr() {
-            function_expr.left = Some(Box::from(function_arg));
-        } else {
-            return Ok(function_expr);
+        // `f()`: no argument at all
+        match self.next_lexem() {
+            Some(lexem)
+                if (lexem == Lexem::Close && !curly_mode)
+                    || (lexem == Lexem::CurlyClose && curly_mode) =>
+            {
+                return Ok(function_expr);
+            }
+            Some(_) => self.drop_lexem(),
+            None => return Err("Error in function expression".to_string()),
+        }
+
+        // an error in the first argument is an error of the query, like one in any other argument
+        match self.parse_expr() {
+            Ok(Some(function_arg)) => function_expr.left = Some(Box::from(function_arg)),
+            Ok(None) => return Err("Error in function expression".to_string()),
+            Err(err) => return Err(err),
         }
 
         let mut args = vec![];
